@@ -207,6 +207,10 @@ class Runner:
         return b
 
     def pick(self):
+        f = getattr(self, 'force_pick', None)
+        if f is not None:
+            self.force_pick = None
+            return f
         return self.rng.choice(self.live)
 
     def add_live(self, x):
@@ -553,6 +557,13 @@ class Runner:
                 exp = simple_texts(a, self.mod)
                 if exp is not None and Nref != exp:
                     viol.append(('C06', 'apply_order', 'i=%d: %r gives the settings %r, in the order given they are %r' % (i, a, Nref, exp)))
+                    break
+                if only_codes(a) and not all(_re.fullmatch(r'[0-9]+(;[0-9]+)*', q_) for q_ in Nref):
+                    # integer codes (also given as a bool, an int subclass, an enum member) and AnsiFormat members
+                    # can only produce numeric settings: valid by construction
+                    viol.append(('C15', 'codes_valid', 'apply(%r): the settings added are %r — not numeric codes' % (a, Nref)))
+                    viol.append(('C14', 'int_text', 'apply(%r): the settings added are %r — not numeric codes' % (a, Nref)))
+                    viol.append(('C06', 'apply_inside_adds', 'apply(%r): the settings added are %r — not numeric codes' % (a, Nref)))
                     break
                 if a[0] == 'obj' and Nref != [P.obj_text(a[1])]:
                     viol.append(('C06', 'apply_inside_adds', 'i=%d: the setting %r was to be added, new on this character: %r' % (i, P.obj_text(a[1]), Nref)))
@@ -1200,6 +1211,19 @@ class Runner:
         enc = lambda r_: P.line('ok', P.e_settings(r_[0], P.IdMap()), P.e_str(r_[1]))
         self.emit('settingsat', inp, self.outcome_line(out, enc), 'settings_at(%d) on %r' % (i, x._s), viol)
 
+    def text_inert(self, t, keys=None):
+        """the text holds no escape character, or only complete control sequences that are not styles (`ESC[2K`,
+        `ESC[1;2H`, …): parsing it keeps it as it is, wherever a style change is written into it"""
+        if '\x1b' not in t and '\x9b' not in t:
+            return True
+        pat = '\x1b\\[[0-9;?]*[A-Za-ln-z~@`]'
+        rest = _re.sub(pat, '', t)
+        if '\x1b' in rest or '\x9b' in rest:
+            return False
+        # … and no style change is written *into* one of them (the rendering would cut the sequence in two)
+        spans = [(m.start(), m.end()) for m in _re.finditer(pat, t)]
+        return not any(a < k < b for k in (keys or ()) for a, b in spans)
+
     def kept_seq_value(self):
         """a value whose *text* holds a control sequence that is not a style (it stays text), in front of a style change
         that does not start at index 0 — where an index computed from pieces instead of characters goes wrong"""
@@ -1215,12 +1239,12 @@ class Runner:
         return x
 
     def op_simplify(self):
-        x = self.pick() if self.rng.random() > 0.08 else self.kept_seq_value()
+        x = self.pick() if (getattr(self, 'force_pick', None) is not None or self.rng.random() > 0.08) else self.kept_seq_value()
         ids = P.InIds()
         inp = self._inp = P.line('simplify', P.e_astr(x, ids))
         pre = O.Snap(x)
         pre_effs = O.effs(x)
-        ok_scope = '\x1b' not in x._s and all(T.is_group(t) or not O.grammar_valid(t) for ac in pre.acts for t in O.texts(ac))
+        ok_scope = self.text_inert(x._s, list(x._fmts)) and all(T.is_group(t) or not O.grammar_valid(t) for ac in pre.acts for t in O.texts(ac))
         # does the value hold a valid but unparsable setting (verbatim multi-code, unknown code, …)?  Then its
         # first rendering is not optimised.
         nongroup = any(q.valid and not q.parsable for p in x._fmts.values() for q in p.add)
@@ -1273,7 +1297,7 @@ class Runner:
 
     def op_roundtrip(self):
         """AnsiString(str(v)) — recorded as a `new` step on the rendering"""
-        x = self.pick() if self.rng.random() > 0.08 else self.kept_seq_value()
+        x = self.pick() if (getattr(self, 'force_pick', None) is not None or self.rng.random() > 0.08) else self.kept_seq_value()
         s = str(x)
         inp = self._inp = P.line('new', P.e_str(s), [0])
         out = self.call(lambda: self.A(s))
@@ -1284,7 +1308,7 @@ class Runner:
             viol.append(('C09', 'parse_total', 'AnsiString(%r) raises %r' % (s, out[1])))
         if out[0] == 'ok':
             y = out[1]
-            if '\x1b' not in x._s and all(T.is_group(t) for ac in O.acts(x) for t in O.texts(ac)):
+            if self.text_inert(x._s, list(x._fmts)) and all(T.is_group(t) for ac in O.acts(x) for t in O.texts(ac)):
                 if y._s != x._s:
                     viol.append(('C03', 'roundtrip_text', repr(s)))
                 elif O.effs(y) != O.effs(x):
@@ -1755,10 +1779,21 @@ class Runner:
                 self.do_apply(x, sa, a, b, rng.random() < 0.8)
                 if self.tainted:
                     return
+            if rng.random() < 0.5:
+                # a valid setting the library cannot parse: the value is rendered in full (`0;<everything active>`) by default
+                self.do_apply(x, ('str', rng.choice(['[73', '[1;31', '[38;5;300'])), a, b, True)
             for opt in (False, True):
                 self.do_tostr(x, None, opt, rng.random() < 0.5, rng.random() < 0.8)
             if rng.random() < 0.5:
                 self.do_slice(x, a, b, 'getitem', False)
+            # … and read back: AnsiString(str(x)) and simplify() show what x shows
+            self.live.append(x)
+            self.force_pick = x
+            self.op_roundtrip()
+            self.force_pick = x
+            self.op_simplify()
+            if len(self.live) > 6:
+                del self.live[0]
             return
         n0 = rng.randint(257, 290)
         x = self.A('a' * n0 + self.text(4, 8))
@@ -1782,7 +1817,9 @@ class Runner:
         elif k == 2:
             self.do_remove(x, rng.choice([None, ('str', 'blue'), ('str', 'red')]), a, b)
         elif k == 3:
-            self.do_find(x, rng.choice([('str', 'blue'), ('str', 'red'), ('str', 'italic')]), a, None, rng.random() < 0.5)
+            # … also with the range ending exactly on a change point beyond 256 where the wanted setting starts
+            self.do_find(x, rng.choice([('str', 'blue'), ('str', 'red'), ('str', 'italic'), ('int', 4)]), a,
+                         rng.choice([None, pts[0] + 0, pts[-1] + 0, pts[1] + 0]), rng.random() < 0.5)
         else:
             self.do_tostr(x, None, True, False, True)
 
@@ -2179,6 +2216,16 @@ def simple_texts(a, mod):
         else:
             return None
     return out
+
+def only_codes(a):
+    t = a[0]
+    if t in ('int', 'intlike'):
+        return int(a[1]) >= 0
+    if t == 'member':
+        return True
+    if t in ('list', 'tuple'):
+        return bool(a[1]) and all(only_codes(q) for q in a[1])
+    return False
 
 def a_truthy(a):
     t = a[0]
